@@ -49,7 +49,8 @@ def random_request(rng, allow_fwd_in_conn=True):
     upstream = rng.sample(FWD + ["X-Forwarded-For"], rng.randint(0, 3)) if rng.random() < 0.5 else []
     upempty = [h for h in rng.sample(FWD, rng.randint(0, 2)) if h not in upstream and h not in conn] if rng.random() < 0.4 else []
     return {"target": random_target(rng), "method": rng.choice(["GET", "GET", "DELETE", "OPTIONS"]), "upempty": upempty,
-            "e2e": e2e, "hop": hop, "conn": conn, "connlines": rng.random() < 0.5, "upstream": upstream, "tls": rng.random() < 0.3,
+            "e2e": e2e, "hop": hop, "conn": conn, "connlines": rng.random() < 0.5, "conncase": rng.choice(["asis", "asis", "lower", "upper"]),
+            "upstream": upstream, "tls": rng.random() < 0.3,
             "hostport": rng.random() < 0.4, "passhost": rng.random() < 0.5, "peer": rng.choice(["v4", "v6", "v6zone"]),
             "mode": "ok", "resp": random_response(rng)}
 
